@@ -137,7 +137,11 @@ func (mdb *MassDBV1) prePlotWork(cache *MemCache) error {
 		rem := (cache.Len() / recordSize) & 1
 		return pocutil.PoCValue(cache.Len()/recordSize - rem)
 	}
-	for startPoint := checkpoint; startPoint < hmA.volume; {
+	// The checkpoint left by an interrupted run is the start of the last finished
+	// window plus one, i.e. odd, while windows hold an even number of slots: resume
+	// from the even slot below it, otherwise the last window shrinks to zero slots
+	// and the loop never ends.
+	for startPoint := checkpoint - checkpoint%2; startPoint < hmA.volume; {
 		if err := ensureCacheMemory(startPoint); err != nil {
 			return err
 		}
